@@ -1718,7 +1718,7 @@ def drv_weighted(tier, seed):
 from pyglove.ext import scalars as scalars_lib  # pylint: disable=g-import-not-at-top,g-bad-import-order
 
 ENV['scalars'] = scalars_lib
-HDR = HDR + 'from pyglove.ext import scalars\n'
+SHDR = HDR + 'from pyglove.ext import scalars\n'
 
 PROBE_CALLS = []
 
@@ -1882,7 +1882,7 @@ def schedule_slots(seed):
       ('where.Any.k', f'recombinators.Order(where=where.Any(k={{n}}, seed={s}), seed={s})', k0, 'dna:2'),
       ('Power.k', f'(mutators.Uniform(seed={s}) ** {{n}})', k0, 'dna:2'),
       ('Repeat.k', f'(mutators.Uniform(seed={s}) * {{n}})', k0, 'dna:2'),
-      ('UntilChange.max_attempts', f'mutators.Uniform(where=lambda d: False, seed={s}).until_change({{n}})', k1, 'dna:1'),
+      ('UntilChange.max_attempts', f'(base.Lambda(probe) >> mutators.Swap(where=lambda d: False, seed={s})).until_change({{n}})', k1, 'dna:1'),
       ('pipeline', f'selectors.Random({{n}}, seed={s}) >> recombinators.Sample({u}, seed={s}) >> mutators.Uniform(seed={s})',
        lambda v, size: _is_count(v, 1) or (_is_prop(v) and v > 0.0), 'dna:4'),
       ('Evolution', 'ev.Evolution('
@@ -2095,7 +2095,7 @@ def drv_schedules(tier, seed):
         case(the_id, (slot, a_src, size, tuple(called)), same,
              lambda: f'operator called at steps {called} only: at step {s} the schedule {ssrc} denotes '
              f'{refs[s]!r}; with the schedule: {_show_run(ra, pop)}; with {refs[s]!r}: {_show_run(rb, pop)}',
-             lambda: HDR + pop_source('flat', pop) + f'a = {a_src}\nb = {b_src}   # value of the schedule at step {s}\n'
+             lambda: SHDR + pop_source('flat', pop) + f'a = {a_src}\nb = {b_src}   # value of the schedule at step {s}\n'
              f'for s in {called}:\n  ra = run_op(a, pop, s)\nrb = run_op(b, pop, {s})\n'
              'assert same_run(ra, rb), (ra, rb)')
 
@@ -2153,7 +2153,7 @@ def drv_schedules(tier, seed):
           wlo, whi = _sel_count(oracle, lo, size), _sel_count(oracle, hi, size)
           for s, ra, rb in zip(steps, runs[0], runs[1]):
             key = key0 + (s,)
-            wit = lambda s=s: (HDR + psrc + f'op = {a_src}\nouts = [op(pop, step=s) for s in range({s + 1})]\n')
+            wit = lambda s=s: (SHDR + psrc + f'op = {a_src}\nouts = [op(pop, step=s) for s in range({s + 1})]\n')
             if ra[0] != 'ok' or not isinstance(ra[1], list):
               case(cid('call'), key, False, lambda: 'unexpected ' + _show_run(ra, pop), wit)
               continue
@@ -2184,7 +2184,7 @@ def drv_schedules(tier, seed):
                + (f'{ta!r}'[:200] if not isinstance(ta, list) else
                   f'first difference at proposal #{next((i for i, (p, q) in enumerate(zip(ta, tb)) if p != q), "?")}'
                   if isinstance(tb, list) else f'{tb!r}'[:200]),
-               lambda: HDR + psrc + f'a = {a_src}\nb = {b_src}\nta, tb = evo_trace(a, S, {n_evo}), evo_trace(b, S, {n_evo})\n'
+               lambda: SHDR + psrc + f'a = {a_src}\nb = {b_src}\nta, tb = evo_trace(a, S, {n_evo}), evo_trace(b, S, {n_evo})\n'
                'assert isinstance(ta, list) and ta == tb, (ta, tb)')
           if isinstance(ta, list):
             bad = None
@@ -2194,7 +2194,7 @@ def drv_schedules(tier, seed):
                 bad = f'proposal #{i}: {v[1]}'
                 break
             case(cid('valid'), key0, bad is None, bad,
-                 lambda: HDR + psrc + f'a = {a_src}\na.setup(S)\nfor i in range({n_evo}):\n  d = a.propose(); '
+                 lambda: SHDR + psrc + f'a = {a_src}\na.setup(S)\nfor i in range({n_evo}):\n  d = a.propose(); '
                  'assert_child(d, S); a.feedback(d, reward_of(d, False))')
           continue
         # ------------------------------------------------- deterministic kinds
@@ -2240,7 +2240,7 @@ def drv_schedules(tier, seed):
         d = fz.diff() if fz else None
         if fz:
           case(cid('inputs-unchanged'), key0, d is None, d,
-               lambda: HDR + psrc + f'a = {a_src}\n'
+               lambda: SHDR + psrc + f'a = {a_src}\n'
                f'assert_unchanged(lambda p: [run_op(a, p, s) for s in {[p[0] for p in pairs]}], pop)')
         for s, ra, rb, b_src in pairs:
           key = key0 + (s,)
@@ -2248,17 +2248,17 @@ def drv_schedules(tier, seed):
           called = [p[0] for p in pairs if p[0] <= s]
           if seq and pure:
             wit = lambda s=s, b_src=b_src, called=called: (
-                HDR + psrc + f'a = {a_src}\nb = {b_src}   # value of the schedule at step {s}\n'
+                SHDR + psrc + f'a = {a_src}\nb = {b_src}   # value of the schedule at step {s}\n'
                 f'for s in {called}:\n  ra = run_op(a, pop, s)\n'
                 f'rb = run_op(b, pop, {s})\nassert same_run(ra, rb, {dna}), (ra, rb)')
           elif seq:
             wit = lambda s=s, b_src=b_src, called=called: (
-                HDR + psrc + f'a = {a_src}\nb = {b_src}\nfor s in {called}:\n'
+                SHDR + psrc + f'a = {a_src}\nb = {b_src}\nfor s in {called}:\n'
                 '  ra, rb = run_op(a, pop, s), run_op(b, pop, s)\n'
                 f'assert same_run(ra, rb, {dna}), (ra, rb)')
           else:
             wit = lambda s=s, b_src=b_src: (
-                HDR + psrc + f'a = {a_src}\nb = {b_src}   # value of the schedule at step {s}\n'
+                SHDR + psrc + f'a = {a_src}\nb = {b_src}   # value of the schedule at step {s}\n'
                 f'ra, rb = run_op(a, pop, {s}), run_op(b, pop, {s})\n'
                 f'assert same_run(ra, rb, {dna}), (ra, rb)')
           same = same_run(ra, rb, dna)
@@ -2279,7 +2279,7 @@ def drv_schedules(tier, seed):
               case(cid('documented-count'), key, len(ra[1]) == want,
                    lambda: f'{len(ra[1])} outputs at step {s} for n = {ssrc} (= {v!r}): documented {want} '
                    f'of {size} inputs',
-                   lambda: HDR + psrc + f'op = {a_src}\n' + (
+                   lambda: SHDR + psrc + f'op = {a_src}\n' + (
                        f'outs = [op(pop, step=s) for s in {called}]\nassert len(outs[-1]) == {want}, len(outs[-1])'
                        if seq else f'out = op(pop, step={s})\nassert len(out) == {want}, len(out)'))
           elif dna:
@@ -2290,7 +2290,7 @@ def drv_schedules(tier, seed):
               if bad:
                 break
             case(cid('valid+aligned'), key, bad is None, bad and bad[1],
-                 lambda: HDR + psrc + f'a = {a_src}\nfor s in {called}:\n  out = a(pop, step=s)\n'
+                 lambda: SHDR + psrc + f'a = {a_src}\nfor s in {called}:\n  out = a(pop, step=s)\n'
                  'for c in out:\n  assert_child(c, S)')
   return rec.result()
 
